@@ -121,6 +121,9 @@ theorem copy_good (dflt : α) {v : VRing α} (g : Good v) : Good (v.copyAndDrop 
   · simp only [copyAndDrop]; rw [hc]; omega
   · simp only [copyAndDrop]; rw [hc]; exact g.cover
 
+theorem pushSelf_good {v : VRing α} (g : Good v) : Good v.pushSelf :=
+  ⟨g.live, g.over, g.dead, g.read, g.bal, wf_moveHeadOne g.wf, g.cover⟩
+
 theorem move_good {v : VRing α} (g : Good v) : Good v.moveAndDrop :=
   ⟨g.live, g.over, g.dead, g.read, g.bal, g.wf, g.cover⟩
 
@@ -135,6 +138,7 @@ theorem VRing.step_good {α : Type} (dflt : α) {v : VRing α} (g : VRing.Good v
     ∃ v', VRing.step dflt v op = some v' ∧ VRing.Good v' := by
   cases op with
   | push x => obtain ⟨v', e, g', -, -⟩ := VRing.push_good x g; exact ⟨v', e, g'⟩
+  | pushSelf => exact ⟨_, rfl, VRing.pushSelf_good g⟩
   | pop => obtain ⟨v', e, g', -, -⟩ := VRing.pop_good dflt g; exact ⟨v', e, g'⟩
   | clear => exact VRing.clear_good dflt _ g
   | resize sz => exact ⟨_, rfl, VRing.resize_good dflt g sz hok⟩
